@@ -1,4 +1,5 @@
 import CstModel.Props.C13
+import CstModel.Props.Gen
 open Cst.C13
 #print axioms range_getOrAdd
 #print axioms findCovering_contains
@@ -15,3 +16,8 @@ open Cst.C13
 #print axioms tao_iter
 #print axioms tao_iter_next
 #print axioms tao_iter_map
+#print axioms Cst.Gen.tao_map
+#print axioms Cst.Gen.tao_right_biased
+#print axioms Cst.Gen.tao_left_biased
+#print axioms Cst.Gen.tao_next
+#print axioms Cst.Gen.tao_size_hint
